@@ -667,7 +667,86 @@ class History:
         self.h.close()
 
 
+def slow_connect_handler(ctx, k):
+    """connect(wait=True) succeeds when the server has accepted every
+    namespace - also when the application's connect handler of the last one
+    is still running at the moment the wait times out (the namespace is
+    recorded before the handler runs, the event is set after it)."""
+    import threading
+    import time
+    rng = ctx.case_rng(4 * 10 ** 7 + k)
+    kind = 'sync' if k % 2 == 0 else 'async'
+    nss = ['/', '/a'][:rng.choice([1, 2])]
+    slow_ns = rng.choice(nss)
+    h = E.make_client(kind, client_kw={'reconnection': False})
+    events = []
+    try:
+        if kind == 'async':
+            def mk(ns):
+                async def on_connect():
+                    events.append(('connect', ns))
+                    if ns == slow_ns:
+                        await asyncio.sleep(0.6)
+                return on_connect
+            for ns in nss:
+                h.c.on('connect', mk(ns), namespace=ns)
+            exc = None
+            try:
+                h.api('connect', 'http://h', namespaces=list(nss), wait=True,
+                      wait_timeout=0.2)
+            except Exception as e:
+                exc = e
+        else:
+            # real threads for the message handlers and a real Event, so
+            # that the wait can time out while a handler is still running
+            def start(target, *a, **kw):
+                th = threading.Thread(target=target, args=a, kwargs=kw,
+                                      daemon=True)
+                th.start()
+                return th
+            h.eio.start_background_task = start
+            h.eio.create_event = lambda *a, **kw: threading.Event()
+
+            def mk(ns):
+                def on_connect():
+                    events.append(('connect', ns))
+                    if ns == slow_ns:
+                        time.sleep(0.12)
+                return on_connect
+            for ns in nss:
+                h.c.on('connect', mk(ns), namespace=ns)
+            exc = None
+            try:
+                h.c.connect('http://h', namespaces=list(nss), wait=True,
+                            wait_timeout=0.04)
+            except Exception as e:
+                exc = e
+            time.sleep(0.15)
+        sent = [(p['type'], p['nsp']) for p in h.sent]
+        w = {'part': 'slow_connect_handler', 'case_index': k, 'kind': kind,
+             'namespaces': nss, 'slow': slow_ns, 'exception': repr(exc),
+             'sent': sent, 'connected': bool(h.c.connected),
+             'client_namespaces': sorted(h.c.namespaces)}
+        ctx.count('slow_connect_handler_scenarios')
+        if exc is not None or not h.c.connected or \
+                sorted(h.c.namespaces) != sorted(nss) or \
+                any(t == R.DISCONNECT for t, _ in sent):
+            ctx.violation(None, 'connect(wait=True): every namespace was '
+                          'accepted, the connect handler of %r was still '
+                          'running when the wait timed out: %s' % (
+                              slow_ns, 'raised %r' % exc if exc else
+                              'client state %r' % (w['client_namespaces'],)),
+                          w)
+        else:
+            ctx.case(('slow_connect_handler', kind, len(nss),
+                      slow_ns == nss[-1]), w)
+    finally:
+        h.close()
+
+
 def run_case(ctx, k):
+    if k % 40 == 7 or k % 40 == 8:
+        return slow_connect_handler(ctx, k)
     rng = ctx.case_rng(k)
     h = History(ctx, rng, 'sync' if k % 2 == 0 else 'async', k)
     try:
@@ -702,6 +781,7 @@ def run(ctx):
     ctx.require('post_reconnect_probes', 10)
     ctx.require('partial_binary_then_end', 5)
     ctx.require('connects_with_eager_read_loop', 20)
+    ctx.require('slow_connect_handler_scenarios', 4)
     k = 0
     while not ctx.out_of_time() and not ctx.too_many_violations():
         run_case(ctx, k)
@@ -710,4 +790,6 @@ def run(ctx):
 
 
 def replay(ctx, w):
+    if w['witness'].get('part') == 'slow_connect_handler':
+        return slow_connect_handler(ctx, w['witness']['case_index'])
     run_case(ctx, w['witness']['case_index'])
